@@ -115,8 +115,28 @@ class Universe:
 # inputs
 # --------------------------------------------------------------------------
 
+def _bytes_markers(doc, raw):
+    """{"__bytes__": hex} -> raw bytes (formats that carry bytes natively) or the
+    base64 text mashumaro uses by default"""
+    if isinstance(doc, dict):
+        if set(doc) == {"__bytes__"} and isinstance(doc["__bytes__"], str):
+            try:
+                b = bytes.fromhex(doc["__bytes__"])
+            except ValueError:
+                return doc
+            if raw:
+                return b
+            import base64
+            return base64.encodebytes(b).decode()
+        return {k: _bytes_markers(v, raw) for k, v in doc.items()}
+    if isinstance(doc, list):
+        return [_bytes_markers(v, raw) for v in doc]
+    return doc
+
+
 def encode_input(method, inp):
     """`inp` is the JSON-able document; encode it for the format method."""
+    inp = _bytes_markers(inp, raw=method in ("from_msgpack", "decode_msgpack"))
     if method in ("from_dict", "decode_basic"):
         return copy.deepcopy(inp)
     if method in ("from_json", "decode_json", "decode_orjson"):
